@@ -79,7 +79,19 @@ def handler(case, payload):
                 pass
         try:
             if op[0] == 'derive':
-                w2 = w.derive(op[1], private=op[2], hardened=op[3])
+                # the same call in its three spellings: keywords, the documented positional order (index, private, hardened),
+                # and defaults left out where the argument equals the documented default (private=True, hardened=False)
+                sp = (op[1] + len(case['ops'])) % 3
+                if sp == 0:
+                    w2 = w.derive(op[1], private=op[2], hardened=op[3])
+                elif sp == 1:
+                    w2 = w.derive(op[1], op[2], op[3])
+                elif op[2] is True and op[3] is False:
+                    w2 = w.derive(op[1])
+                elif op[3] is False:
+                    w2 = w.derive(op[1], op[2])
+                else:
+                    w2 = w.derive(op[1], op[2], hardened=op[3])
             else:
                 w2 = w.derive_from_path(op[1], private=op[2])
         except Exception as e:
